@@ -1,5 +1,7 @@
 package raft
 
+import "bytes"
+
 // C05 / C01.V*: the vote handler, for every voter state and every request.
 
 //verif:check C05,C01,C17 stubs=env,valuefile reach=granted,refused,end desc="onVoteRequest from any (term,votedFor,leader,lastLog) and any request: granted => durable (term,candidate); term file monotone; reply term <= durable term" bounds="all 64-bit values; one request"
@@ -85,6 +87,35 @@ func VH_C05_vote_persist_failure() {
 		vReach("replied")
 		vAssert(x.resp.getTerm() <= dt, "V5-reply-term-not-above-durable-when-persisting-fails")
 		vAssert(vImp(vRenameFailAt == 0, x.resp.getResult() != success), "V5-no-grant-without-a-durable-vote")
+	}
+	vReach("end")
+}
+
+//verif:check C05,C10 stubs=env,valuefile,abslog reach=persist-failed,replied,end desc="an AppendEntries request whose higher term cannot be persisted (the rename of the term file fails): whatever reply leaves the node carries a term no newer than the durable one, and the node's in-memory term and vote still equal the durable pair" bounds="follower log of 1 entry, heartbeat request with any term; I/O error injected at the first rename; all 64-bit values"
+func VH_C05_append_persist_failure() {
+	c := vAppendSetup(1, 0, false)
+	r := c.r
+	t0, v0 := vDurable(".term")
+	var w bytes.Buffer
+	if err := c.req.encode(&w); err != nil {
+		panic(err)
+	}
+	conn, _ := vMkConn(w.Bytes())
+	x := &rpc{req: &appendReq{}, conn: conn, done: make(chan struct{})}
+	vRenameFailAt = 1
+	func() {
+		defer func() { _ = recover() }()
+		r.replyRPC(x)
+	}()
+	dt, dv := vDurable(".term")
+	if vRenameFailAt == 0 {
+		vReach("persist-failed")
+		vAssert(dt == t0 && dv == v0, "failed-rename-leaves-the-term-file")
+		vAssert(r.term == dt && r.votedFor == dv, "V5-memory-equals-disk-after-a-failed-persist")
+	}
+	if isClosed(x.done) && x.resp != nil {
+		vReach("replied")
+		vAssert(x.resp.getTerm() <= dt, "V5-reply-term-not-above-durable-when-persisting-fails")
 	}
 	vReach("end")
 }
